@@ -20,6 +20,10 @@ mod transport;
 pub mod util;
 mod xpub;
 
+#[cfg(feature = "verif-hooks")]
+#[doc(hidden)]
+pub mod __verif;
+
 #[doc(hidden)]
 pub mod __async_rt {
     //! DO NOT USE! PRIVATE IMPLEMENTATION, EXPOSED ONLY FOR INTEGRATION TESTS.
